@@ -140,6 +140,7 @@ def run(repo: Repo, chk: Check):
                       "instructions (the set collected from the instruction list), not only into the objects stored in the symbol table: "
                       "otherwise a virtual name '__register.N_' is printed as an operand", floor=2)
     chk.guarded(r09f, repo, chk)
+    chk.guarded(r09_exact_integral, repo, chk)
 
 
 # ---------------------------------------------------------------------- R09.b
@@ -545,3 +546,53 @@ def r09f(repo: Repo, chk: Check, R="R09.f"):
         chk.judge(R, f"register_assignment:assign_registers:the mapping is applied to every object of {u}", applied,
                   f"no loop over {u} stores {sorted(maps)[0]}[...] into code_expr: a register object that is used by an instruction but is not the object kept in the symbol "
                   f"table (the register of a batch access, a copy) keeps its virtual name and is printed as '__register.N_'", None, where)
+
+
+# ---------------------------------------------------------------------- R09.d (second clause) / R03.l
+def r09_exact_integral(repo: Repo, chk: Check, R="R09.d"):
+    """IC10Operand.__init__ turns a float into an int only when the float IS that integer: the literal that is printed reads back
+    as the value the transpiler computed."""
+    m = repo.mod("types")
+    init = m.func("IC10Operand.__init__")
+    chk.saw("types", "IC10Operand.__init__")
+    cfg = CFG(init)
+    where = f"{m.path}:{init.lineno} in IC10Operand.__init__"
+    param = init.args.args[1].arg if len(init.args.args) > 1 else "value"
+    n = 0
+    for node in cfg.nodes:
+        st = node.ast
+        if node.kind != "stmt" or node.id not in cfg.reachable() or not (isinstance(st, ast.Assign) and any(isinstance(t, ast.Name) and t.id == param for t in st.targets)):
+            continue
+        v = st.value
+        if not (isinstance(v, ast.Call) and isinstance(v.func, ast.Name) and v.func.id in ("int", "round", "floor", "trunc") or
+                isinstance(v, ast.Call) and norm(v.func) in ("math.floor", "math.trunc", "math.ceil")):
+            continue
+        if not any(norm(a) == param for a in v.args):
+            continue
+        floaty = False
+        exact = None
+        for t, p in cfg.guards(node.id):
+            if not isinstance(t, ast.expr):
+                continue
+            tt = norm(t)
+            if p and tt.startswith("isinstance(") and "float" in tt:
+                floaty = True
+            if p and tt in (f"int({param}) == {param}", f"{param} == int({param})", f"{param}.is_integer()", f"{param} % 1 == 0", f"{param} == round({param})", f"round({param}) == {param}",
+                            f"{param} == math.floor({param})", f"math.floor({param}) == {param}"):
+                exact = True
+            elif p and ("isclose" in tt or "abs(" in tt and ("<" in tt) or "round(" in tt and "," in tt):
+                exact = False if exact is None else exact
+        if not floaty:
+            continue        # the bool -> int normalisation and the like
+        n += 1
+        key = "types:IC10Operand.__init__:a float becomes an integer only when it is one"
+        if exact is True:
+            chk.ok(R, key, None)
+        elif exact is False:
+            chk.bad(R, key, f"'{norm(st)}' replaces a float by an integer under a tolerance test ({[norm(t) for t, p in cfg.guards(node.id) if isinstance(t, ast.expr)][-1][:60]}): "
+                    f"a constant that is merely close to an integer (1 - 1e-10, or any fraction above 5e8 with a relative tolerance) is emitted as that integer, "
+                    f"so the program computes with another value than the folded expression had", None, where)
+        else:
+            raise AnalysisError(f"IC10Operand.__init__: the condition under which '{norm(st)}' runs was not understood")
+    if n == 0:
+        raise AnalysisError("IC10Operand.__init__: the float -> int normalisation was not found")
